@@ -31,6 +31,12 @@ func extractCalls(out string) {
 		}
 	}
 	l.strList("messageIDVar", globals)
+	// the stand-in of an object hosted by a client: calls get a goroutine, posts and cancels are sent on as they are
+	fob := load("bus/object.go")
+	l.strList("clientObjectReceiveFlow", flowTokens(mustFunc(fob, "bus/object.go", "*clientObject", "Receive"), "c", nil,
+		[]string{"handleRegister", "handleCall", "Send", "SendError", "SendReply"}))
+	l.strList("clientObjectHandleCallFlow", flowTokens(mustFunc(fob, "bus/object.go", "*clientObject", "handleCall"), "c", nil,
+		[]string{"Call", "Send", "SendError", "SendReply"}))
 	// the generic object dispatcher and one generated stub
 	fo := load("bus/object_stub_gen.go")
 	recv := mustFunc(fo, "bus/object_stub_gen.go", "*stubObject", "Receive")
